@@ -97,7 +97,7 @@ pub fn ln_guard(sym: &Sym, lnx0: &[f64], d: usize, nl: usize, dod: f64) -> (bool
 
 /// None = the case was legitimately skipped (labelled in ctx)
 pub fn evaluate<const D: usize>(c: &Phys, ctx: &mut Ctx, stab: Option<f64>) -> Result<Option<Eval>, Failure> {
-    let (ne, nl) = validate(c)?;
+    let (ne, nl) = validate_opt(c, true)?;
     let g = &c.g;
     let s = match sut::build::<D>(g, c.kin.sig.clone()) {
         Ok(s) => s,
